@@ -135,7 +135,7 @@ class Walker:
                  after_stmt=None, call_result=None,
                  max_states=400000, arith=False, ordered_marks=False, want_ret=False,
                  inline_eq_derive=True, max_marks=64, ret_prefixes=("0",), dedupe_marks=False,
-                 refine=True, keep_ints=True):
+                 refine=True, keep_ints=True, std_wrappers=True):
         self.F = F
         self.body = body
         self.on_stmt = on_stmt
@@ -156,6 +156,7 @@ class Walker:
         self.dedupe_marks = dedupe_marks
         self.refine = refine
         self.keep_ints = keep_ints
+        self.std_wrappers = std_wrappers
         self.states_explored = 0
         self.edges_taken = set()
 
@@ -641,6 +642,8 @@ class Walker:
                 result = self._derived_eq(env, args)
         if result is None and self.call_result is not None:
             result = self.call_result(self, bb, t, env, args)
+        if result is None and name is not None and self.std_wrappers:
+            result = std_wrapper_result(self, t, env, args, name, dst)
         # moved-from argument locals are dead afterwards
         for x in t["xs"]:
             if x["k"] == "move" and not x["p"] and not _prefix_match(dst, str(x["l"])):
@@ -668,6 +671,58 @@ class Walker:
                         if v["n"] == a[2] and len(v["fields"]) == 0:
                             return 1
         return None
+
+
+_WRAP_CONV = {
+    # callee -> (source variant, destination ADT, destination variant)
+    "<core::option::Option>::ok_or": ("Some", "core::result::Result", "Ok", "Err"),
+    "<core::option::Option>::ok_or_else": ("Some", "core::result::Result", "Ok", "Err"),
+    "<core::result::Result>::map_err": ("Ok", "core::result::Result", "Ok", "Err"),
+    "<core::result::Result>::ok": ("Ok", "core::option::Option", "Some", "None"),
+}
+
+
+def _copy_payload(env, src_pre, dst_pre):
+    for k2, v2 in list(env.items()):
+        if _prefix_match(k2, src_pre):
+            env[dst_pre + k2[len(src_pre):]] = v2
+
+
+def std_wrapper_result(w, t, env, args, name, dst):
+    """Variant/payload propagation through the std Option/Result/`?` plumbing for tracked values."""
+    xs = t["xs"]
+    if not xs or xs[0]["k"] not in ("copy", "move"):
+        if name.endswith("core::ops::try_trait::FromResidual>::from_residual"):
+            return ("var", "core::result::Result", "Err")
+        return None
+    a0 = args[0]
+    src = w.norm(env, xs[0])
+    if name in _WRAP_CONV:
+        sv, dadt, dv, dother = _WRAP_CONV[name]
+        if isinstance(a0, tuple) and a0[0] == "var":
+            if a0[2] == sv:
+                _copy_payload(env, "%s@%s.0" % (src, sv), "%s@%s.0" % (dst, dv))
+                return ("var", dadt, dv)
+            return ("var", dadt, dother)
+        return None
+    if name.endswith("core::ops::try_trait::Try>::branch"):
+        if isinstance(a0, tuple) and a0[0] == "var":
+            if a0[2] in ("Ok", "Some"):
+                _copy_payload(env, "%s@%s.0" % (src, a0[2]), "%s@Continue.0" % dst)
+                return ("var", "core::ops::control_flow::ControlFlow", "Continue")
+            return ("var", "core::ops::control_flow::ControlFlow", "Break")
+        return None
+    if name.endswith("core::ops::try_trait::FromResidual>::from_residual"):
+        return ("var", "core::result::Result", "Err")
+    if name in ("<core::option::Option>::unwrap", "<core::option::Option>::expect", "<core::result::Result>::unwrap",
+                "<core::result::Result>::expect"):
+        if isinstance(a0, tuple) and a0[0] == "var" and a0[2] in ("Ok", "Some"):
+            pre = "%s@%s.0" % (src, a0[2])
+            v = env.get(pre)
+            _copy_payload(env, pre, dst)
+            return v
+        return None
+    return None
 
 
 def interval_classes(consts, lo, hi, extra=()):
